@@ -24,6 +24,8 @@ CHECKS = {
                           ("harness.config", "C18_RandomValues"), ("harness.config", "C18_LegacyKeys"),
                           ("harness.config", "C18_ClassLookup")]},
     "C19": {"harnesses": [("harness.functions", "C19_TickRounding")]},
+    "C20": {"harnesses": [("harness.agents", "C20_FCN"), ("harness.agents", "C20_MarketShareFCN"),
+                          ("harness.agents", "C20_MarketMaker"), ("harness.agents", "C20_Arbitrage")]},
     "C08": {"harnesses": [("harness.ophistory", "C08_OpHistory")]},
     "C03": {"harnesses": [("harness.matching", "C03_ClearingRound"), ("harness.matching", "C03_Continuous")]},
 }
@@ -42,5 +44,4 @@ META = {pid: {"level": _L, "note": _N} for pid in ["C%02d" % i for i in range(1,
 NOT_APPLICABLE = {
     "C06": "harness not built yet in this revision (planned: RN clock/series monitor)",
     "C07": "harness not built yet in this revision (planned: two-run comparison under nondeterministic global sources)",
-    "C20": "harness not built yet in this revision",
 }
